@@ -126,10 +126,6 @@ static const PmcConfig CFG[] = {
     {"r:W,R|R",        3, {1,2}, {0,0}, {0,0}, {0,0}, ""},
     {"q:W|R|R",        3, {1,2}, {0,0}, {0,0}, {0,0}, "writer unlock must wake all waiting readers"},
     {"q:pW,pR,pw,ph",  3, {0,0}, {0,0}, {0,0}, {0,0}, "writer holds, reader and timed writer queue, a late reader slips in, the writer gives up: the last reader must wake the queued reader"},
-    {"q:gen4x1",       3, {0,0}, {0,0}, {0,0}, {0,0}, "generated: every 4-thread program with one op each from {R,W,r,w,h,i0,i1}, every arrival order"},
-    {"r:gen4x1",       3, {0,0}, {0,0}, {0,0}, {0,0}, ""},
-    {"q:gen3x2",       2, {0,0}, {0,0}, {0,0}, {0,0}, "generated: 3 threads x up to 2 ops"},
-    {"r:gen3x2",       2, {0,0}, {0,0}, {0,0}, {0,0}, ""},
     {"q:W|R:tso",      3, {1,2}, {0,0}, {1,1}, {2,3}, "x86-TSO store buffers (qrwlock is built on atomics only)"},
     {"q:W|W:tso",      3, {1,2}, {0,0}, {1,1}, {2,3}, ""},
     {"q:R,R|W:tso",    2, {1,1}, {0,0}, {1,1}, {2,2}, ""},
@@ -155,6 +151,11 @@ static const PmcConfig CFG[] = {
     {"q:W|R,i1",       3, {1,2}, {0,0}, {0,0}, {0,0}, ""},
     {"q:W,R|R,W",      2, {1,2}, {0,0}, {0,0}, {0,0}, ""},
     {"r:W,R|R,W",      2, {1,2}, {0,0}, {0,0}, {0,0}, ""},
+    // generated programs last: they take whatever budget the configs above leave
+    {"q:gen4x1",       3, {0,0}, {0,0}, {0,0}, {0,0}, "generated: every 4-thread program with one op each from {R,W,r,w,h,i0,i1}, every arrival order"},
+    {"r:gen4x1",       3, {0,0}, {0,0}, {0,0}, {0,0}, ""},
+    {"q:gen3x2",       2, {0,0}, {0,0}, {0,0}, {0,0}, "generated: 3 threads x up to 2 ops"},
+    {"r:gen3x2",       2, {0,0}, {0,0}, {0,0}, {0,0}, ""},
 };
 const PmcConfig* pmc_configs(int* n) { *n = sizeof CFG / sizeof CFG[0]; return CFG; }
 const char* pmc_property(void) { return "C06"; }
